@@ -1,9 +1,9 @@
 (** Correspondence runner for C07: a history of create / save / get / get_metadata calls on one
     cassette (in-memory, file-based, or S3 with a key prefix); after every call the outcome and
     the stored names (ids / file names / bucket keys) are compared with the model's.  Every saved
-    value also exercises the oracle premise of the C07 theorems, [loads (dumps j) = Some j], on
-    the concrete parser. *)
-From Playback Require Export Base.Str Values.PyVal Values.Codec Values.JsonParse
+    value is checked to lie in the leaf domain of the C07 theorems ([rec_leaves_ok]) and re-evaluates
+    [loads (dumps j) = Some j] on the concrete parser (a theorem on [jwf]: JsonFacts.loads_dumps). *)
+From Playback Require Export Base.Str Values.PyVal Values.Codec Values.JsonWf Values.JsonParse
   Cassette.Bucket Cassette.S3Store Cassette.Stores.
 Open Scope list_scope.
 
@@ -101,7 +101,8 @@ Definition loads_premise (v : pyval) : bool :=
   end.
 Definition premises (o : cop) : bool :=
   match o with
-  | PSave r => loads_premise (rec_obj r) && loads_premise (full_value r) && loads_premise (VDict (r_meta r))
+  | PSave r => rec_leaves_ok r &&      (* the leaf-domain premise of the theorems holds of everything the harness saves *)
+               loads_premise (rec_obj r) && loads_premise (full_value r) && loads_premise (VDict (r_meta r))
   | _ => true
   end.
 
